@@ -8,11 +8,45 @@
 //! shown without corrupting the heap.  Outside C02's usage contract (lengths
 //! must match), reported as an observation.
 //!
+//! `km_replay huge`: the rotation step that the model takes as an input
+//! (`OrientedBoundingBox::from_points`) panics inside k-means on FINITE
+//! coordinates of magnitude >= ~1e154: the inertia matrix overflows, nalgebra's
+//! eigenvalues are NaN and geometry.rs:299 `partial_cmp(..).unwrap()` fails
+//! (the known finding `obb-coordinate-overflow` recorded for Rib / HilbertCurve
+//! / ZCurve under C01 also hits KMeans, i.e. C02's "returns without panicking").
+//!
 //! usage: km_replay        (prints the buffer before / after)
+//!        km_replay huge
 use coupe::Partition as _;
 use coupe::Point2D;
 
+fn huge() {
+    let points = [
+        Point2D::new(0., 0.),
+        Point2D::new(1e160, 0.),
+        Point2D::new(0., 3e160),
+        Point2D::new(5e160, 1e160),
+    ];
+    let weights = [1.0f64; 4];
+    let mut part = vec![0usize, 1, 0, 1];
+    let r = std::panic::catch_unwind(std::panic::AssertUnwindSafe(|| {
+        coupe::KMeans { max_iter: 3, max_balance_iter: 2, ..Default::default() }
+            .partition(&mut part, (&points[..], &weights[..]))
+            .unwrap();
+    }));
+    match r {
+        Ok(()) => println!("returned: {:?}", part),
+        Err(_) => {
+            println!("PANIC inside KMeans::partition on a valid partition with finite coordinates");
+            std::process::exit(1);
+        }
+    }
+}
+
 fn main() {
+    if std::env::args().nth(1).as_deref() == Some("huge") {
+        return huge();
+    }
     let points = [Point2D::new(0., 0.), Point2D::new(1., 0.), Point2D::new(2., 0.)];
     let weights = [1.0f64; 3];
     let mut buf = vec![0usize, 1, 777];
